@@ -1089,7 +1089,11 @@ def run_c12(t):
         if got[0] != "exp":
             return False, {"why": "predict_expectations raised", "out": str(got)}
         if base["np"][0] == "clusters":
-            lab = imp.kmeans.predict(X); c = int(imp.kmeans.predict(np.asarray([q], dtype=float))[0])
+            # stored rows: the assignment k-means made when it was fitted (labels_); the query: kmeans.predict.  (For a point
+            # exactly equidistant from two centres scikit-learn's fit and predict may break the tie differently - predict(X)
+            # on the stored rows is therefore NOT the partition the per-cluster policies were trained on.)
+            lab = imp.kmeans.labels_ if len(getattr(imp.kmeans, "labels_", [])) == len(X) else imp.kmeans.predict(X)
+            c = int(imp.kmeans.predict(np.asarray([q], dtype=float))[0])
             cell = [rows[j] for j in range(len(rows)) if lab[j] == c]
             want = [(a, mwh.canon_val(cf_expectation(kind, hp, [r for dd, r, _ in cell if dd == a], len(cell)))) for a in arms]
         else:
